@@ -288,6 +288,44 @@ def classify_arity_result(r):
 
 
 # ---------------------------------------------------------------------------------------------
+def guard_selects_by_position(v, lib, o, site_bb, operand, fixed_t, n_inputs=5):
+    """`if <guard> { &inputs[k] } else { variadic }`: with inputs.len() = 5 and k = 0, 3, 4, 5, 6 every walked path that reaches
+    the per-argument check carries inputs[k] exactly when k < 5 and the variadic type otherwise."""
+    var_t = ("field", ("param", 1), "variadic")
+    for k in (0, n_inputs - 2, n_inputs - 1, n_inputs, n_inputs + 1):
+        def atom(t, k=k):
+            if t == ("index", ("param", 2)):
+                return k
+            if t == ("discr", var_t):
+                return "Some"
+            return None
+
+        def call(t, argvals):
+            if t[1].endswith("::len") and t[2] and t[2][0] == fs({("field", ("param", 1), "inputs")}):
+                return n_inputs
+            if t[1] == "std::option::Option::<T>::is_some" and t[2][0] == fs({var_t}):
+                return 1
+            if t[1] == "std::option::Option::<T>::is_none" and t[2][0] == fs({var_t}):
+                return 0
+            return None
+
+        w = Walker(v, o, atom=atom, call=call, cut_loops=True, max_steps=4000)
+        try:
+            paths = w.walk()
+        except Undecided:
+            return False
+        seen = set()
+        for path, leaf in paths:
+            if site_bb not in path:
+                continue
+            upto = path[:path.index(site_bb) + 1]
+            seen |= set(Origins(v, lib, only_blocks=set(upto)).of_operand(operand))
+        want = {fixed_t} if k < n_inputs else {var_t}
+        if seen != want:
+            return False
+    return True
+
+
 def check_positions(ctx, lib):
     rule = "per-position"
     v = ctx.fn("functions::Signature::validate", rule=rule)
@@ -336,6 +374,9 @@ def check_positions(ctx, lib):
             # variadic: inputs.get(k).unwrap_or(variadic), or the same choice written as `if k < inputs.len() { &inputs[k] } else { variadic }`
             # (the index in the latter is discharged as a guarded index by the C05 rules)
             guarded_choice = vd == {fixed_t, ("field", ("param", 1), "variadic")}
+            if case == "variadic" and guarded_choice:
+                # which of the two is chosen is decided by the guard: walked with concrete positions around inputs.len()
+                guarded_choice = guard_selects_by_position(v, lib, o, bb, t["args"][4], fixed_t)
             v_ok = bool(vd) and (vd == {fixed_t} if case == "fixed" else (all(is_var(x) for x in vd) or guarded_choice))
             if not v_ok and vd:
                 # the same choice as a case analysis on inputs.get(k) itself (`match (inputs.get(k), &variadic) { (Some(d), _) => d,
